@@ -46,6 +46,17 @@ def step (line : String) : String :=
         | none => false)
       b ++ " " ++ b
     | none => "bad-case"
+  | "c" :: op :: lit :: _s :: lit2 :: _s2 :: flds =>
+    -- two literals queried one after the other on the same store: four answers
+    match Bytes.ofHex lit, Bytes.ofHex lit2 with
+    | some l, some l2 =>
+      let ans (l : Bytes) :=
+        let d := unescape Generated.unescapeTable l
+        bits (flds.map fun f => match Bytes.ofHex f with
+          | some fv => evalOp op d fv
+          | none => false)
+      ans l ++ " " ++ ans l ++ " " ++ ans l2 ++ " " ++ ans l2
+    | _, _ => "bad-case"
   | _ => "bad-case"
 
 /-- spec verdict: the same, with the *intended* string `s` instead of the model's reading -/
@@ -66,6 +77,14 @@ def specStep (line : String) : String :=
         | none => false)
       b ++ " " ++ b
     | none => "bad-case"
+  | "c" :: op :: _lit :: s :: _lit2 :: s2 :: flds =>
+    match Bytes.ofHex s, Bytes.ofHex s2 with
+    | some d, some d2 =>
+      let ans (d : Bytes) := bits (flds.map fun f => match Bytes.ofHex f with
+          | some fv => evalOp op d fv
+          | none => false)
+      ans d ++ " " ++ ans d ++ " " ++ ans d2 ++ " " ++ ans d2
+    | _, _ => "bad-case"
   | _ => "bad-case"
 
 def run (spec : Bool) : IO Unit := forEachLine (if spec then specStep else step)
